@@ -135,9 +135,10 @@ func c07Codec(run *Run, cd *codecDef) {
 
 func c07(args []string) int {
 	run := NewRun("C07", args)
-	run.Sum.Rule = "per codec: streams of 1-4 structured valid frames (generator of C08; every third stream may hold a 64KiB+ frame; every fifth ends in an incomplete frame) cut at EVERY single position (sampled above 600 bytes), +-4 around every frame boundary, every PAIR of positions (streams <= 90 bytes), into 1-byte reads, and at random; each segmentation is fed read by read into one accumulating IoBuffer with the Dispatch loop around the REAL Decode. Non-trivial = more than one chunk; distinct by (codec, stream, cut set)."
+	run.Sum.Rule = "per codec: streams of 1-4 structured valid frames (generator of C08; every third stream may hold a 64KiB+ frame; every fifth ends in an incomplete frame) cut at EVERY single position (sampled above 600 bytes), +-4 around every frame boundary, every PAIR of positions (streams <= 90 bytes), into 1-byte reads, and at random; each segmentation is fed read by read into one accumulating IoBuffer with the Dispatch loop around the REAL Decode. Non-trivial = more than one chunk; distinct by (codec, stream, cut set). matchers: the seven real protocol matchers on every prefix (0..40 bytes and the whole) of generated frames of every codec, HTTP/1 request lines, the HTTP/2 preface, a crafted bolt frame carrying the dubbo-thrift magic at offset 4, and random bytes; the real SelectStreamFactoryProtocol is called 400 times when two matchers accept."
 	for _, cd := range codecDefs() {
 		c07Codec(run, cd)
 	}
+	c07Matchers(run)
 	return run.Finish()
 }
